@@ -113,17 +113,30 @@ func (f *packageFiles) enter(file *ast.File) {
 	if _, ok := f.sources[f.current]; ok {
 		return
 	}
-	// a preprocessed copy: the first //line directive in it names the source file (a
-	// directive of the source file itself may follow, even before the package clause)
+	// a preprocessed copy: its leading //line directives name the file it was made from,
+	// possibly through an intermediate copy (cgo under -cover); a directive of the source
+	// file itself may follow, even before the package clause. The source file is the first
+	// file name the directives switch to that is a source file of the package.
 	physical := f.current
 	f.current = f.Position(file.Package).Filename
+	first := ""
 	if tf := f.File(file.Package); tf != nil {
 		for line := 1; line <= tf.LineCount() && line <= 100; line++ {
-			if name := f.Position(tf.LineStart(line)).Filename; name != physical {
+			name := f.Position(tf.LineStart(line)).Filename
+			if name == physical {
+				continue
+			}
+			if _, ok := f.sources[name]; ok {
 				f.current = name
 				return
 			}
+			if first == "" {
+				first = name
+			}
 		}
+	}
+	if first != "" {
+		f.current = first
 	}
 }
 
